@@ -19,6 +19,27 @@ impl C01 {
         // mode "tiny": only the smallest seeds (Miri / valgrind volumes)
         let max = if cx.mode == "tiny" { 5_000 } else if cx.quick() { 260_000 } else { 4_000_000 };
         let seeds = load_seed_fonts(max, true);
+        let mut seeds = seeds;
+        // Derived seeds: small CID-keyed CFF fonts (several Font DICTs, FDSelect, local subrs) cut out
+        // of the one large CID fixture with allsorts' own subsetter, so that the quick tier reaches the
+        // CID paths too. (Seeds need not be independent of allsorts; they only have to be well-formed.)
+        if cx.mode != "tiny" {
+            if let Ok(big) = std::fs::read("/repo/tests/fonts/noto/NotoSansJP-Regular.otf") {
+                for (k, step) in [(0u16, 97u16), (1, 211), (2, 401)] {
+                    let made = std::panic::catch_unwind(|| {
+                        let scope = allsorts::binary::read::ReadScope::new(&big);
+                        let fd = scope.read::<allsorts::font_data::FontData<'_>>().ok()?;
+                        let p = fd.table_provider(0).ok()?;
+                        let mut ids: Vec<u16> = vec![0];
+                        ids.extend((1..70u16).map(|i| i * step + k));
+                        allsorts::subset::subset(&p, &ids).ok()
+                    });
+                    if let Ok(Some(data)) = made {
+                        seeds.push(SeedFont { name: format!("derived/NotoSansJP-cid-subset-{}.otf", k), data });
+                    }
+                }
+            }
+        }
         let mut witnesses = Vec::new();
         for p in list_files("/verif/findings/witness", &["bin"]) {
             if let Ok(d) = std::fs::read(&p) {
@@ -84,7 +105,11 @@ impl Prop for C01 {
             return;
         }
         // bias towards small seeds (cheap) but keep the large ones in play
-        let f = if rng.chance(3, 4) {
+        let derived: Vec<usize> = self.seeds.iter().enumerate().filter(|(_, f)| f.name.starts_with("derived/")).map(|(i, _)| i).collect();
+        let f = if !derived.is_empty() && rng.chance(1, 10) {
+            // small CID-keyed CFF fonts: few such seeds, so they get their own share
+            &self.seeds[*rng.pick(&derived)]
+        } else if rng.chance(3, 4) {
             let k = rng.below(self.seeds.len());
             let k2 = rng.below(self.seeds.len());
             if self.seeds[k].data.len() < self.seeds[k2].data.len() { &self.seeds[k] } else { &self.seeds[k2] }
